@@ -28,10 +28,80 @@ TRUSTED_BASE = [
 ASSUMPTIONS = [
     "sizes are exact naturals in the model: a container whose element count, capacity or size*100 would wrap a 64-bit usize cannot be allocated (hashmap roundpow2 is modelled mod 2^64 and rehash returns a distinguished Overflow outcome if it wrapped)",
     "allocation never fails (xspanrealloc raises an error otherwise); freshly (re)allocated cells hold unspecified values that the containers never expose",
-    "element equality == and hash of the element type are the functions teqb/khash of the model: the hashmap theorems need == symmetric and transitive (reflexivity is not assumed: NaN keys are covered) and a hash that respects it (proved for the derived hashes of hash.nelua: integers, booleans, floats incl. +-0, record{integer,number})",
+    "element equality == and hash of the element type are the functions teqb/khash of the model: the hashmap theorems need == symmetric and transitive (reflexivity is not assumed: NaN keys are covered) and a hash that respects it (proved for the derived hashes of hash.nelua: integers, booleans, floats incl. +-0, record{integer,number}); the extracted model hashes value tokens where the implementation hashes the values: by C12_hashmap_hash_independent_exact nothing observable depends on which coherent hash is used",
     "negative float -> usize conversion in hash.hash wraps like x86-64 gcc (C leaves it undefined); compared with the implementation on every run",
     "correspondence is differential testing of the model against the compiled library, not a proof that model = code; every valid history is additionally replayed on a build with -fsanitize=address,undefined and the GC disabled (-P nogc: the conservative collector cannot run under ASan's fake stacks) (a test, not an obligation)",
 ]
+
+MANIFEST_ENTRY = {
+    "text": "proof, partial: THEOREMS (Coq 8.16.1, all closed under the global context) about an executable Gallina model of "
+            "lib/{vector,sequence,list,hashmap,span,stringbuilder,hash}.nelua - every operation of vector, sequence and list (doubly "
+            "linked) refines the mathematical list, for any history, with the documented check firing exactly when the list "
+            "operation's precondition fails and never a memory error; the hashmap refines the association-list map for any == "
+            "that is symmetric and transitive (NaN keys included) and any hash respecting it, iteration visits each binding "
+            "once, removal while iterating is safe, rehash keeps the bindings in order, and - stronger - the hashmap IS a "
+            "hash-free flat map: results, iteration order, capacity and bucket count are the same for every hash function "
+            "respecting ==; the only other outcome (usize wrap of the bucket count) is excluded below 2^60 bindings; the derived "
+            "hashes of integers, booleans, floats (+-0, NaN), record{integer,number}, arrays, spans, pointers and unions respect "
+            "==, and the byte loop is total; the stringbuilder refines the byte string incl. NUL slot, commit/rollback guards "
+            "(after repair 8abaeda) and refused allocations; a refused allocation in vector/sequence/hashmap/list aborts "
+            "before any change; destroy resets to the fresh container; a span (fat pointer) answers as the list of its window "
+            "and sub-spans stay inside it.  BY CORRESPONDENCE/TESTING ONLY: that the hand-written model is the Nelua code "
+            "(scraped tuning constants + step-by-step differential runs of one compiled driver for element types integer, "
+            "string, record{integer,number}, number against the extracted model and an independent Python oracle, "
+            "precondition-violating and allocation-refusing streams, ASan/UBSan replay); lib/iterators.nelua; writef/format; "
+            "float32 and user-defined record keys",
+    "note": "trusted: Coq 8.16.1 kernel; the hand-written model coq/C12/Model.v (tie = scraped MAX_LOAD_FACTOR/GROW_RATE/INIT_CAPACITY, "
+            "initial capacities, growth multipliers, hash seed + correspondence, which is testing); extraction with ExtrOcamlBasic; "
+            "OCaml/Nelua/Python glue (driver.ml, driver.nelua, checks/C12.py); sizes are exact naturals (no container near 2^60 "
+            "elements); allocation either succeeds or panics; the Nelua compiler that compiles the driver; no cross-property file dependencies",
+    "technique": "machine-checked proof in Coq over an executable model + regenerated parameters + extracted-model/implementation correspondence",
+}
+# main: a refinement/behaviour statement about the model of the library; corollary: follows from a main one or is a
+# narrow instance; definitional: restates a definition (kept as reading aid); tripwire: facts about scraped constants
+THEOREM_CLASSES = {
+    "C12_vector_step_refines_list": "main",
+    "C12_vector_history_refines_list": "corollary",          # induction over the step theorem
+    "C12_vector_observers": "corollary",
+    "C12_sequence_step_refines_list": "main",
+    "C12_sequence_history_refines_list": "corollary",
+    "C12_sequence_observers": "corollary",
+    "C12_sequence_remove_guard": "corollary",                # the check added by repair 3181cf6, instance of the step theorem
+    "C12_hashmap_step_refines_map": "main",
+    "C12_hashmap_history_refines_map": "corollary",
+    "C12_hashmap_no_overflow_below_2p60": "main",            # bounds the Overflow disjunct of the two above (uses facts about the scraped rates)
+    "C12_hashmap_empty_related": "corollary",
+    "C12_hashmap_iteration_each_binding_once": "main",
+    "C12_hashmap_next_follows_iteration_order": "main",
+    "C12_hashmap_erase_during_iteration": "main",
+    "C12_hashmap_irreflexive_keys": "corollary",
+    "C12_hashmap_rehash_preserves_bindings": "main",
+    "C12_hashmap_is_flat_map": "main",
+    "C12_hashmap_hash_independent_exact": "corollary",       # of the flat-map theorem
+    "C12_hashmap_hash_independent": "corollary",             # weaker (Permutation-level) form for association-list-related starts
+    "C12_hashmap_overflow_only_beyond_2p62": "corollary",
+    "C12_hash_coherent_float": "main",
+    "C12_hash_coherent_record": "main",
+    "C12_hash_coherent_aggregates": "main",
+    "C12_hash_byte_loop_total": "corollary",                 # the model's fuel/default are dead code
+    "C12_hash_coherent_integer_boolean": "corollary",
+    "C12_stringbuilder_step_refines_bytes": "main",
+    "C12_stringbuilder_history_refines_bytes": "corollary",
+    "C12_stringbuilder_nul_slot": "corollary",
+    "C12_stringbuilder_commit_guard": "main",                # full strength since repair 8abaeda
+    "C12_stringbuilder_commit_exact": "corollary",
+    "C12_stringbuilder_rollback_guard": "corollary",
+    "C12_stringbuilder_allocation_failure": "main",
+    "C12_stringbuilder_write_many_allocation_failure": "main",
+    "C12_span_window_refines_list": "main",
+    "C12_span_guards": "definitional",                       # unfolds span_at/span_sub, the right-hand side of the theorem above
+    "C12_list_step_refines_list": "main",
+    "C12_list_history_refines_list": "corollary",
+    "C12_list_observers": "corollary",
+    "C12_allocation_failure_aborts": "main",
+    "C12_hashmap_rehash_request_sizes": "corollary",
+    "C12_destroy_resets": "corollary",
+}
 
 NZ = 1 << 40
 NAN = 1 << 41     # tokens >= NAN: float NaN / record with a NaN field: == to nothing, not even themselves
@@ -46,7 +116,7 @@ OPN = {
     3: {1: "pushfront", 2: "pushback", 3: "popfront", 4: "popback", 5: "insertbefore", 6: "erasevalue", 7: "find", 8: "clear", 9: "empty", 10: "erase(nilptr)", 11: "destroy", 12: "scoped-close"},
     4: {1: "set", 2: "get", 3: "peek", 4: "has", 5: "has_and_get", 6: "remove", 7: "erase", 8: "clear", 9: "reserve", 10: "rehash", 11: "erase-while-iterating", 12: "next(k)", 13: "next()", 14: "probe", 15: "mpairs-update", 16: "next-traversal", 17: "destroy"},
     6: {1: "write", 2: "writebyte", 3: "prepare/commit", 4: "rollback", 5: "resize", 6: "clear", 7: "promote", 8: "commit-over", 9: "prepare", 10: "destroy", 11: "write(integer)", 12: "write(boolean)", 13: "write(integer,bytes,boolean)"},
-    7: {1: "at", 2: "sub"},
+    7: {1: "at", 2: "sub", 3: "sub-at", 4: "sub-sub"},
 }
 OPN[2] = OPN[1]
 OPN[5] = OPN[4]
@@ -413,6 +483,14 @@ class OSpan:
         if op == 2:
             if not (0 <= a <= n and b <= n and a <= b): raise Violation("Index")
             return ("sub", self.l[a:b])
+        if op == 3:       # s:sub(a,b)[c]
+            if not (0 <= a <= n and b <= n and a <= b): raise Violation("Index")
+            if not (0 <= c < b - a): raise Violation("Index")
+            return ("at", self.l[a + c])
+        if op == 4:       # s:sub(a,b):sub(c,#t)
+            if not (0 <= a <= n and b <= n and a <= b): raise Violation("Index")
+            if not (0 <= c <= b - a): raise Violation("Index")
+            return ("sub", self.l[a:b][c:])
         raise KeyError(op)
 
 
@@ -639,7 +717,9 @@ def gen_violation(rng, kind, typ):
     n = 0
     if kind == 7:
         n = rng.randrange(0, 6)
-        bad = rng.choice([(1, n, 0, 0), (1, n + rng.randrange(1, 100), 0, 0), (2, n + 1, n + 1, 0), (2, 0, n + 1, 0), (2, 2, 1, 0) if n >= 2 else (2, 1, 0, 0)])
+        bad = rng.choice([(1, n, 0, 0), (1, n + rng.randrange(1, 100), 0, 0), (2, n + 1, n + 1, 0), (2, 0, n + 1, 0), (2, 2, 1, 0) if n >= 2 else (2, 1, 0, 0),
+                          # inside the storage but outside the sub-span's window: only the window check can stop these
+                          (3, 0, n // 2, n // 2), (3, 1, n - 1, n - 2) if n >= 3 else (3, 0, 0, 0), (4, 0, n // 2, n // 2 + 1)])
         pre = [(1, rng.randrange(0, n), 0, 0)] if n else []
         if bad == (2, 1, 0, 0) and n == 0:
             bad = (2, 1, 1, 0)
@@ -968,10 +1048,13 @@ def correspond(ctx):
     for i in range(ctx.scale(20, 400)):
         n = rng.randrange(0, 12)
         ops = []
-        for _ in range(10):
-            if n and rng.random() < 0.5: ops.append((1, rng.randrange(0, n), 0, 0))
-            else:
-                a = rng.randrange(0, n + 1); ops.append((2, a, rng.randrange(a, n + 1), 0))
+        for _ in range(12):
+            r = rng.random()
+            a = rng.randrange(0, n + 1); b = rng.randrange(a, n + 1)
+            if n and r < 0.3: ops.append((1, rng.randrange(0, n), 0, 0))
+            elif r < 0.55: ops.append((2, a, b, 0))
+            elif r < 0.8 and b > a: ops.append((3, a, b, rng.randrange(0, b - a)))        # element of a sub-span
+            else: ops.append((4, a, b, rng.randrange(0, b - a + 1)))                         # sub-span of a sub-span
         hist.append({"kind": 7, "typ": 0, "n": n, "ops": ops, "dump": 0, "stream": "span"})
     groups = []
     owners = []     # for every line the implementation prints: (history index, step index or -1 for the header)
@@ -1290,8 +1373,14 @@ def correspond(ctx):
 
 
 UNPROVED = [
+    "model = code is not a theorem: lib/{vector,sequence,list,hashmap,span,stringbuilder,hash}.nelua are mirrored by hand in coq/C12/Model.v (one Gallina function per source function); the tie is the scraped constants (Gen.v) plus the step-by-step differential runs of the compiled library against the extracted model and the Python oracle, also under ASan/UBSan",
+    "lib/iterators.nelua (ipairs/mipairs/pairs/mpairs/next/mnext over contiguous containers, list.__next/__mnext, select) is not modelled: its index stepping is only exercised by the driver (ipairs over vector and span, mipairs over a sub-span, pairs over sequence, list and hashmap, mpairs and next over hashmap); mnext and select are not exercised at all",
+    "hashmap: the model runs with a hash on value tokens while the implementation hashes the real values; this is covered by C12_hashmap_is_flat_map / C12_hashmap_hash_independent_exact (every hash that respects == gives identical results, order, capacity and bucket count) TOGETHER WITH the coherence of the real hashes, which is proved only for integer, boolean, float64 (+-0, NaN), record{integer,number}, arrays/spans/pointers/unions as functions of the compared bytes; strings are compared with == on bytes and hashed by the byte loop (coherent by congruence, not stated); float32 keys and other record shapes are not covered",
+    "hashmap: the distinguished Overflow outcome (roundpow2 wrapped in usize; the implementation would continue with a zero-sized table) is excluded by theorem only below 2^60 bindings/requested counts (C12_hashmap_no_overflow_below_2p60); at or above that the model says Overflow and nothing is claimed about the code",
+    "hashmap next(m,k)/__next is not an operation of the step relation (hop): C12_hashmap_next_follows_iteration_order covers it separately and the flat-map theorem does not mention it",
+    "allocation failure: theorems are about the model with an allocation oracle (refused request = panic before any change); that the library's x-allocators panic is checked by the driver with a refusing allocator, not proved; the gc/general allocators themselves are C11's subject; counts whose byte size overflows (Allocator span operations, /repo 942989e) are outside the model (sizes are exact naturals)",
+    "stringbuilder: histories are covered under the static protocol condition sb_op_ok (the client writes at most the n bytes it asked prepare for), a sufficient condition for the state-dependent one of the step theorem (at most the span prepare returned); write of integer/boolean arguments is modelled as write of the rendered bytes (the rendering, strconv.int2str, is C14's theorem in another sub-project: here driver and oracle render and the correspondence compares); float arguments (num2str), writef/formatarg (string.format) and __tostring are not modelled",
     "list __convert (needs a fixed-size array literal) is not exercised; vector/sequence __convert is exercised through conversion from a span; __close is exercised at harness level only (a scoped to-be-closed container, also under the sanitizer build), in the model it is destroy",
-    "stringbuilder write of integer/boolean arguments is modelled as write of the rendered bytes: the rendering itself (strconv.int2str) is C14's theorem and lives in another sub-project, here the driver/oracle render in OCaml/Python and the correspondence compares; float arguments (num2str), writef/formatarg and __tostring are not modelled",
-    "hash.hash of records with a user __hash: the model takes the user function as a parameter (coherent iff the user's method respects the user's ==), nothing to correspond; nested aggregates (arrays of records, ...) are covered by composition of the proved pieces but only arrays of integers/floats, span(integer), an 8-byte union and pointers are exercised",
-    "independence of the hashmap's observable behaviour from the hash values is not a theorem; the model hashes tokens for non-integer key types and the correspondence shows equal observables",
+    "hash.hash of records with a user __hash: the model takes the user function as a parameter (coherent iff the user's method respects the user's ==), nothing to correspond; nested aggregates are covered by composition of the proved pieces but only arrays of integers/floats, span(integer), an 8-byte union and pointers are exercised",
+    "span: span.as (reinterpretation as another element type) and __convert from strings/arrays are not modelled; the window theorem is about one storage block seen as a list",
 ]
